@@ -270,6 +270,16 @@ Definition recv (k : Z) (n : text) : text * text := (lcd_ident k n, lcd_cols_var
 
 Record rstate : Type := mkR { r_cur : cur; r_ord : Z }.
 
+(* run a state-threading step over a list, concatenating the outputs (the statement loop of
+   _emit_block: lcd_state is one dict, mutated in place and shared with the nested blocks) *)
+Definition thread {A S O : Type} (f : S -> A -> list O * S) : S -> list A -> list O * S :=
+  fix go (st : S) (l : list A) {struct l} : list O * S :=
+    match l with
+    | [] => ([], st)
+    | x :: r => let '(o, s) := f st x in
+                let '(o', s') := go s r in (o ++ o', s')
+    end.
+
 Fixpoint res_item (bs : list binding) (top : bool) (st : rstate) (it : item) {struct it}
   : list (text * text) * rstate :=
   match it with
@@ -278,30 +288,12 @@ Fixpoint res_item (bs : list binding) (top : bool) (st : rstate) (it : item) {st
       else ([], mkR (register_other (l_name d) (r_cur st)) (r_ord st))
   | ICmd n =>
       (match tlookup n (r_cur st) with Some k => [recv k n] | None => [] end, st)
-  | IBlock bl =>
-      (fix bodies (st : rstate) (l : list (list item)) {struct l} : list (text * text) * rstate :=
-         match l with
-         | [] => ([], st)
-         | b :: r =>
-             let '(o1, st1) :=
-               (fix body (st : rstate) (l : list item) {struct l} : list (text * text) * rstate :=
-                  match l with
-                  | [] => ([], st)
-                  | x :: r' => let '(o, s) := res_item bs false st x in
-                               let '(o', s') := body s r' in (o ++ o', s')
-                  end) st b in
-             let '(o2, st2) := bodies st1 r in (o1 ++ o2, st2)
-         end) st bl
+  | IBlock bl => thread (thread (fun s x => res_item bs false s x)) st bl
   | _ => ([], st)
   end.
 
-Fixpoint res_items (bs : list binding) (top : bool) (st : rstate) (l : list item)
-  : list (text * text) * rstate :=
-  match l with
-  | [] => ([], st)
-  | x :: r => let '(o, s) := res_item bs top st x in
-              let '(o', s') := res_items bs top s r in (o ++ o', s')
-  end.
+Definition res_items (bs : list binding) (top : bool) : rstate -> list item -> list (text * text) * rstate :=
+  thread (fun s x => res_item bs top s x).
 
 (* receivers of the command lines of setup(), of loop(), and of every function body (each on a
    copy of lcd_state as the loop body left it) *)
